@@ -8,6 +8,7 @@
 From Coq Require Import List ZArith Bool.
 From V Require Import Lib.Enc Model.DList Model.SList Run.C13 Proofs.DListRel Proofs.DListRun Proofs.SListInv Proofs.SListRun Proofs.C13Entry.
 From V Require Import Lib.GoSem Lib.GoSemHeap Gen.SListCode Proofs.SListCode.
+From V Require Gen.DListCode Proofs.DListCode.
 Import ListNotations.
 
 (* ---------------------------------------------------------------- DList *)
@@ -104,3 +105,18 @@ Proof.
         (conj code_Swap_model (conj of_to to_of))))))))))))))))).
 Qed.
 Print Assumptions c13_slist_code_is_model.
+
+(* ---------------------------------------------------------------- ... and so is the pointer core of DList *)
+(* Gen/DListCode.v: listz/doubly_list.go translated on every run by the same extension; DNode and DList live in ONE heap, the
+   sentinel `root` is stored inline (&l.root = the id of l — the layout of Model/DList.v).  The statement (spelled out in
+   Proofs/DListCode.v: dlist_code_is_model_stmt, printed below) says, for all heaps and all non-nil list / node ids:
+   Len, Init, lazyInit, Front, Back, DNode.Next / Prev, insert, insertValue, remove, move = the model's llen, init,
+   lazy_init, front, back, node_next / node_prev, insert, insert_value, remove, move; Remove, PushFront, PushBack,
+   InsertBefore / After, PushFrontNode / PushBackNode, InsertNodeBefore / After, MoveToFront = their guards (owned) +
+   lazy_init + the core, as in Model.DList.step.  NOT covered: MoveToBack / MoveBefore / MoveAfter, PushBackDList /
+   PushFrontDList, NewDoubly, iter.go.  (The statement lives in Proofs/ because Gen/DListCode.v and Gen/SListCode.v both
+   define Heap / mkHeap / h_fresh and this file imports the SList names.) *)
+Theorem c13_dlist_code_is_model : V.Proofs.DListCode.dlist_code_is_model_stmt.
+Proof. exact V.Proofs.DListCode.dlist_code_is_model. Qed.
+Print V.Proofs.DListCode.dlist_code_is_model_stmt.
+Print Assumptions c13_dlist_code_is_model.
